@@ -12,6 +12,7 @@ import Driver.Wave
 import Driver.MdsData
 import Driver.Tags
 import Driver.Conf
+import Driver.Hist
 open Driver
 
 def allHandlers : List Handler :=
@@ -24,6 +25,7 @@ def allHandlers : List Handler :=
   ++ MdsDataD.handlers
   ++ TagsD.handlers
   ++ ConfD.handlers
+  ++ HistD.handlers
 
 def answerModel (cmd arg : String) : String :=
   match allHandlers.find? (·.cmd == cmd) with
